@@ -21,6 +21,7 @@ import (
 
 	"github.com/tmpim/casket"
 	_ "github.com/tmpim/casket/caskethttp"
+	"github.com/tmpim/casket/caskethttp/httpserver"
 
 	"verifharness/hx"
 )
@@ -33,11 +34,14 @@ import (
 //              request when Restart is called; once the old listener of address 1 is closed a fresh connection
 //              probes address 1 (`mid`); then the first client completes its request (`str`); then Restart returns
 //
+//   L:<kind>   the same with a request that OUTLIVES the graceful period (`-grace`, set to 300 ms for this stream): the drain
+//              of the server of address 1 times out, Restart returns, only then does the client complete its request
+//
 //   kind = the addresses served: digits 1, 2 (free loopback ports chosen per case) and 3 (a port another listener
 //          holds), suffix x = the configuration fails during setup
 //   every site answers with its generation number, so a response says which configuration produced it
 //
-//   out = step|step|…   step = <res>;fd=<f1>.<f2>;sk=<s1>.<s2>;p=<m1>.<m2>[;mid=<m>;str=<m>]
+//   out = step|step|…   step = <res>;fd=<f1>.<f2>;sk=<s1>.<s2>;p=<m1>.<m2>;ni=<n>[;mid=<m>][;str=<m>]     ni = len(casket.Instances())
 //     fd  listening descriptors on address 1 / 2          sk  identity of the listening socket (inode), renamed in
 //     p   answer to a fresh connection: generation, - (refused), hang            order of first appearance, 0 = none
 
@@ -56,6 +60,8 @@ func c07Setup() error {
 	if !c07.inited {
 		c07.inited = true
 		casket.Quiet = true
+		// the graceful period of every server this stream creates: short, so that a request can outlive it (L: operations)
+		httpserver.GracefulTimeout = 300 * time.Millisecond
 		c07.portCur = 20000 + (os.Getpid()*53)%9000
 	}
 	log.SetOutput(io.Discard)
@@ -191,6 +197,43 @@ func c07Socks(port int) (listening []c07Sock, accepted int) {
 	return
 }
 
+// has this process accepted (accept(2) returned) the connection that the client made from local port `peer` to `port`?
+func c07Accepted(port, peer int) bool {
+	ents, _ := os.ReadDir("/proc/self/fd")
+	for _, e := range ents {
+		fd, err := strconv.Atoi(e.Name())
+		if err != nil {
+			continue
+		}
+		if v, err := syscall.GetsockoptInt(fd, syscall.SOL_SOCKET, syscall.SO_ACCEPTCONN); err != nil || v != 0 {
+			continue
+		}
+		sa, err := syscall.Getsockname(fd)
+		if err != nil {
+			continue
+		}
+		pa, err := syscall.Getpeername(fd)
+		if err != nil {
+			continue
+		}
+		lp, pp := 0, 0
+		if a, ok := sa.(*syscall.SockaddrInet4); ok {
+			lp = a.Port
+		} else if a, ok := sa.(*syscall.SockaddrInet6); ok {
+			lp = a.Port
+		}
+		if a, ok := pa.(*syscall.SockaddrInet4); ok {
+			pp = a.Port
+		} else if a, ok := pa.(*syscall.SockaddrInet6); ok {
+			pp = a.Port
+		}
+		if lp == port && pp == peer {
+			return true
+		}
+	}
+	return false
+}
+
 func c07ProbeOnce(port int, patience time.Duration) string {
 	tr := &http.Transport{DisableKeepAlives: true}
 	defer tr.CloseIdleConnections()
@@ -259,7 +302,7 @@ func (o *c07Obs) observe(p [4]int) string {
 			}
 		}
 	}
-	return fmt.Sprintf("fd=%d.%d;sk=%d.%d;p=%s.%s", fd[1], fd[2], sk[1], sk[2], c07Probe(p[1]), c07Probe(p[2]))
+	return fmt.Sprintf("fd=%d.%d;sk=%d.%d;p=%s.%s;ni=%d", fd[1], fd[2], sk[1], sk[2], c07Probe(p[1]), c07Probe(p[2]), len(casket.Instances()))
 }
 
 func c07Eval(f []string) (string, []string) {
@@ -274,18 +317,19 @@ func c07Eval(f []string) (string, []string) {
 	}
 	type op struct {
 		straddle bool
+		long     bool
 		k        c07Kind
 	}
 	var ops []op
 	for _, s := range f[1:] {
-		if !strings.HasPrefix(s, "R:") && !strings.HasPrefix(s, "T:") {
+		if !strings.HasPrefix(s, "R:") && !strings.HasPrefix(s, "T:") && !strings.HasPrefix(s, "L:") {
 			return "bad-case", nil
 		}
 		k, ok := c07ParseKind(s[2:])
 		if !ok {
 			return "bad-case", nil
 		}
-		ops = append(ops, op{s[0] == 'T', k})
+		ops = append(ops, op{s[0] == 'T', s[0] == 'L', k})
 	}
 	var p [4]int
 	p[1], p[2], p[3] = c07FreePort(), c07FreePort(), c07.p3
@@ -305,28 +349,74 @@ func c07Eval(f []string) (string, []string) {
 		in := c07Input(o.k, gen, p)
 		res := "ok"
 		extra := ""
-		if !o.straddle {
+		if o.long {
+			// a request that outlives the graceful period
+			str := "-"
+			conn, err := net.DialTimeout("tcp", fmt.Sprintf("127.0.0.1:%d", p[1]), 2*time.Second)
+			if err == nil {
+				conn.Write([]byte("GET / HTTP/1.1\r\nHost: 127.0.0.1\r\nConnection: close\r\n"))
+				peer := conn.LocalAddr().(*net.TCPAddr).Port
+				deadline := time.Now().Add(c07Patience)
+				for time.Now().Before(deadline) && !c07Accepted(p[1], peer) {
+					time.Sleep(200 * time.Microsecond)
+				}
+			}
+			if _, err := insts[0].Restart(in); err != nil { // returns after the drain of the busy server timed out
+				res = "err"
+			}
+			if conn != nil {
+				conn.SetDeadline(time.Now().Add(c07Patience))
+				conn.Write([]byte("\r\n"))
+				resp, err := http.ReadResponse(bufio.NewReader(conn), nil)
+				if err != nil {
+					str = "e:reset"
+				} else {
+					b, _ := io.ReadAll(io.LimitReader(resp.Body, 64))
+					resp.Body.Close()
+					str = strings.TrimSpace(string(b))
+					if resp.StatusCode != 200 {
+						str = "e:" + strconv.Itoa(resp.StatusCode)
+					}
+				}
+				conn.Close()
+			}
+			extra = ";str=" + str
+			tags["longflight-"+res] = true
+		} else if !o.straddle {
 			if _, err := insts[0].Restart(in); err != nil {
 				res = "err"
 			}
 			tags["reload-"+res] = true
 		} else {
-			before, accBefore := c07Socks(p[1])
+			before, _ := c07Socks(p[1])
+			trace := os.Getenv("VERIF_TRACE") != ""
+			var tlog []string
+			t0 := time.Now()
+			note := func(f string, a ...interface{}) {
+				if trace {
+					tlog = append(tlog, fmt.Sprintf("%6dus ", time.Since(t0).Microseconds())+fmt.Sprintf(f, a...))
+				}
+			}
 			str := "-"
 			conn, err := net.DialTimeout("tcp", fmt.Sprintf("127.0.0.1:%d", p[1]), 2*time.Second)
 			if err == nil {
 				conn.Write([]byte("GET / HTTP/1.1\r\nHost: 127.0.0.1\r\nConnection: close\r\n"))
-				// the old instance must have accepted it before the reload starts
+				// the old instance must have accepted it before the reload starts: its server-side socket (local port p1,
+				// peer = our local port) shows up in the fd table.  (A request whose header is not complete 5 s after the
+				// connection was made is treated as idle by net/http's Shutdown: do not dawdle.)
+				peer := conn.LocalAddr().(*net.TCPAddr).Port
 				deadline := time.Now().Add(c07Patience)
 				for time.Now().Before(deadline) {
-					if _, acc := c07Socks(p[1]); acc > accBefore {
+					if c07Accepted(p[1], peer) {
+						note("accepted")
 						break
 					}
 					time.Sleep(200 * time.Microsecond)
 				}
 			}
 			done := make(chan error, 1)
-			go func() { _, err := insts[0].Restart(in); done <- err }()
+			note("restart starts")
+			go func() { _, err := insts[0].Restart(in); note("restart returned %v", err); done <- err }()
 			finished := false
 			var rerr error
 			deadline := time.Now().Add(c07Patience)
@@ -348,17 +438,26 @@ func c07Eval(f []string) (string, []string) {
 					}
 				}
 				if handed && conn != nil {
+					note("handed over: now=%v", now)
 					break
 				}
 				time.Sleep(200 * time.Microsecond)
 			}
 			mid := c07Probe(p[1])
+			note("mid=%s finished=%v", mid, finished)
 			if conn != nil {
 				conn.SetDeadline(time.Now().Add(c07Patience))
 				conn.Write([]byte("\r\n"))
 				resp, err := http.ReadResponse(bufio.NewReader(conn), nil)
 				if err != nil {
 					str = "e:reset"
+					if os.Getenv("VERIF_TRACE") != "" {
+						now, acc := c07Socks(p[1])
+						fmt.Fprintln(os.Stderr, "straddler:", err, "restart finished before completion:", finished, "listening now:", len(now), "accepted now:", acc, "before fds:", before)
+						for _, l := range tlog {
+							fmt.Fprintln(os.Stderr, "   ", l)
+						}
+					}
 				} else {
 					b, _ := io.ReadAll(io.LimitReader(resp.Body, 64))
 					resp.Body.Close()
@@ -509,7 +608,7 @@ func c07Storm(rng *hx.Rng, nReloads, clients int) (kinds, reloads, requests stri
 }
 
 func c07StormGen(g *hx.Gen) {
-	storms, nReloads := 6, 12
+	storms, nReloads := 10, 30
 	if g.Thorough() {
 		storms, nReloads = 40, 50
 	}
@@ -598,6 +697,30 @@ func c07Gen(g *hx.Gen) {
 	}
 	for _, s := range starts {
 		rec([]string{"S:" + s}, maxLen)
+	}
+	// requests that outlive the graceful period (each costs the 300 ms of the drain that times out): two or more listeners,
+	// the long request on the first one, followed by further reloads
+	long := [][]string{
+		{"S:12", "L:12"}, {"S:12", "L:21"}, {"S:12", "L:12", "R:12"}, {"S:12", "L:1"}, {"S:12", "L:2"}, {"S:12", "L:12x"},
+		{"S:12", "L:13"}, {"S:1", "L:12"}, {"S:1", "L:1", "T:12"}, {"S:2", "L:12"}, {"S:12", "R:21", "L:12", "L:21"},
+		{"S:12", "L:123"}, {"S:12", "T:12", "L:12", "R:1"},
+	}
+	for _, c := range long {
+		g.Case(c...)
+	}
+	if g.Thorough() {
+		for it := 0; it < 60; it++ {
+			ops := []string{"S:" + hx.Pick(g.Rng, starts)}
+			L := 2 + g.Rng.Intn(4)
+			for i := 0; i < L; i++ {
+				if g.Rng.Chance(1, 3) {
+					ops = append(ops, "L:"+hx.Pick(g.Rng, c07Kinds))
+				} else {
+					ops = append(ops, hx.Pick(g.Rng, alpha))
+				}
+			}
+			g.Case(ops...)
+		}
 	}
 	N := 200
 	if g.Thorough() {
